@@ -337,6 +337,11 @@ def Key.typeName : Key → Str
 
 inductive LeafKind where
   | str | int | float | bool | none
+  /-- an instance of an int / float subclass (enum.IntEnum member, a quantity type, …): still a
+  "simple" value for the view; class name and `camel_to_snake` of it are inputs -/
+  | num (className cssName : Str)
+  /-- any other non-container object: rendered through `utils.format` like a leaf, but not "simple" -/
+  | other (className cssName : Str)
   deriving DecidableEq, Repr
 
 inductive NodeKind where
@@ -370,6 +375,12 @@ def Tree.isLeaf : Tree → Bool
   | .leaf .. => true
   | .node .. => false
 
+/-- `isinstance(value, (bool, int, float, str, type(None)))`. -/
+def Tree.isSimple : Tree → Bool
+  | .leaf _ _ (.other ..) .. => false
+  | .leaf .. => true
+  | .node .. => false
+
 def Tree.isStr : Tree → Bool
   | .leaf _ _ .str .. => true
   | _ => false
@@ -377,6 +388,23 @@ def Tree.isStr : Tree → Bool
 inductive KeyStyle where
   | summary | label
   deriving DecidableEq, Repr
+
+/-- A node filter (`Callable[[KeyPath, value, parent], bool]`) as data: what the harness can
+describe and both sides can evaluate from the path alone. -/
+inductive Pred where
+  | all
+  | paths (ps : List (List Key))
+  | depth (n : Nat)
+  | neg (p : Pred)
+  | or (p q : Pred)
+  deriving Repr
+
+def Pred.eval : Pred → List Key → Bool
+  | .all, _ => true
+  | .paths ps, path => ps.contains path
+  | .depth n, path => path.length == n
+  | .neg p, path => !p.eval path
+  | .or p q, path => p.eval path || q.eval path
 
 /-- The rendering arguments that are inherited by child nodes (`inherited_kwargs`). -/
 structure Ctx where
@@ -391,6 +419,10 @@ structure Ctx where
   keyColor : Option (Option Str × Option Str) := none   -- (color, background-color) of label keys
   highlight : List (List Key) := []      -- node filter `highlight`, as the set of paths it accepts
   lowlight : List (List Key) := []
+  includeP : Option Pred := none        -- callable `include_keys` (inherited by every level)
+  excludeP : Option Pred := none        -- callable `exclude_keys`
+  keyStyleP : Option Pred := none       -- callable `key_style`: 'label' where the filter accepts
+  uncollapseP : Option Pred := none     -- callable `uncollapse`
   deriving Repr
 
 /-- Arguments that act on the root only: option-level markup, written as given (NOT escaped:
@@ -413,6 +445,7 @@ structure Opts extends Ctx where
 def LeafKind.cssName : LeafKind → Str
   | .str => c!"str" | .int => c!"int" | .float => c!"float"
   | .bool => c!"bool" | .none => c!"none-type"
+  | .num _ css => css | .other _ css => css
 
 def dots : Str := c!"(...)"
 
@@ -420,6 +453,7 @@ def dots : Str := c!"(...)"
 def LeafKind.title : LeafKind → Str
   | .str => c!"str" | .int => c!"int" | .float => c!"float"
   | .bool => c!"bool" | .none => c!"NoneType" ++ dots
+  | .num n _ => n | .other n _ => n ++ dots
 
 def NodeKind.cssName : NodeKind → Str
   | .dict | .symDict => c!"dict"
@@ -456,6 +490,7 @@ def needsSummary (c : Ctx) (named : Bool) (t : Tree) : Bool :=
     if !c.enableSummaryForStr && t.isStr then false
     else match t with
       | .leaf _ _ .str _ raw _ => named || decide ((raw.length : Int) > c.maxSummaryLenForStr)
+      | .leaf _ _ (.other ..) .. => true
       | .leaf .. => named
       | .node .. => true
 
@@ -473,9 +508,26 @@ def shouldCollapse (c : Ctx) (named : Bool) (path : List Key) (t : Tree) : Bool 
   | none => false
   | some l =>
     if l > 0 then false
-    else if inUncollapse path c.uncollapse then false
-    else if named && t.isLeaf then false
-    else true
+    else match c.uncollapseP with
+      | some q => !q.eval path
+      | none =>
+        if inUncollapse path c.uncollapse then false
+        else if named && t.isSimple then false
+        else true
+
+/-- Is the child at `path` displayed (callable include / exclude filters)? -/
+def childShown (c : Ctx) (path : List Key) : Bool :=
+  (match c.includeP with | some q => q.eval path | none => true)
+  && !(match c.excludeP with | some q => q.eval path | none => false)
+
+/-- Is the key of the child at `path` rendered as a label (table row) rather than in its summary? -/
+def childLabel (c : Ctx) (seq : Bool) (path : List Key) : Bool :=
+  seq || (match c.keyStyleP with | some q => q.eval path | none => c.keyStyle == .label)
+
+/-- Does any child pass `f`? (`has_child` / `if label_keys:`) -/
+def anyChild (f : List Key → Bool) (path : List Key) : List Tree → Bool
+  | [] => false
+  | t :: ts => f (path ++ [t.key]) || anyChild f path ts
 
 /-- `styles=dict(color=c[0], background_color=c[1])` after `get_color`. -/
 def colorStyles (c : Option (Option Str × Option Str)) : List (Str × Option Str) :=
@@ -576,26 +628,32 @@ mutual
     | .node k p kind tip children =>
       detailsEl st c top name path (.node k p kind tip children)
         (complexEl kind (contentCss c top name (.node k p kind tip children))
-          (match children with
-           | [] => emptySpan
-           | _ :: _ =>
-             if kind.isSeq || c.keyStyle == .label then
-               c!"<table>" ++ rows st c path children ++ c!"</table>"
-             else summaryChildren st c path children))
+          (if anyChild (childShown c) path children then
+             summaryChildren st c kind.isSeq path children
+             ++ (if anyChild (fun q => childShown c q && childLabel c kind.isSeq q) path children then
+                   c!"<table>" ++ rows st c kind.isSeq path children ++ c!"</table>"
+                 else [])
+           else emptySpan))
 
-  def summaryChildren (st : Sites) (c : Ctx) (path : List Key) : List Tree → Str
+  /-- the displayed children whose key is summary-style, in order -/
+  def summaryChildren (st : Sites) (c : Ctx) (seq : Bool) (path : List Key) : List Tree → Str
     | [] => []
     | t :: ts =>
-      wrapHL c (path ++ [t.key])
-        (render st (childCtx c) {} (some t.key.summaryName) (path ++ [t.key]) t)
-      ++ summaryChildren st c path ts
+      (if childShown c (path ++ [t.key]) && !childLabel c seq (path ++ [t.key]) then
+         wrapHL c (path ++ [t.key])
+           (render st (childCtx c) {} (some t.key.summaryName) (path ++ [t.key]) t)
+       else [])
+      ++ summaryChildren st c seq path ts
 
-  def rows (st : Sites) (c : Ctx) (path : List Key) : List Tree → Str
+  /-- the displayed children whose key is label-style, as table rows -/
+  def rows (st : Sites) (c : Ctx) (seq : Bool) (path : List Key) : List Tree → Str
     | [] => []
     | t :: ts =>
-      rowEl (objectKeyEl st (childCtx c) t)
-        (wrapHL c (path ++ [t.key]) (render st (childCtx c) {} none (path ++ [t.key]) t))
-      ++ rows st c path ts
+      (if childShown c (path ++ [t.key]) && childLabel c seq (path ++ [t.key]) then
+         rowEl (objectKeyEl st (childCtx c) t)
+           (wrapHL c (path ++ [t.key]) (render st (childCtx c) {} none (path ++ [t.key]) t))
+       else [])
+      ++ rows st c seq path ts
 end
 
 /-- The immediate children of the root that are displayed: `include_keys` (in the order given,
@@ -791,29 +849,34 @@ def jsEscapeWith (table : List (Char × Str)) : Str → Str
 /-! ### what the property expects to find in the output -/
 
 mutual
-  /-- The texts of all leaves of the rendered tree (what `value_repr` shows for each). -/
-  def leafTextsOf (c : Ctx) : Tree → List Str
+  /-- The texts of all leaves of the rendered tree (what `value_repr` shows for each); children
+  hidden by callable include / exclude filters are not part of it. -/
+  def leafTextsOf (c : Ctx) (path : List Key) : Tree → List Str
     | .leaf k p kind repr raw tip => [leafText c (.leaf k p kind repr raw tip)]
-    | .node _ _ _ _ children => leafTextsOfAll (childCtx c) children
-  def leafTextsOfAll (c : Ctx) : List Tree → List Str
+    | .node _ _ _ _ children => leafTextsOfAll c path children
+  def leafTextsOfAll (c : Ctx) (path : List Key) : List Tree → List Str
     | [] => []
-    | t :: ts => leafTextsOf c t ++ leafTextsOfAll c ts
+    | t :: ts =>
+      (if childShown c (path ++ [t.key]) then leafTextsOf (childCtx c) (path ++ [t.key]) t else [])
+      ++ leafTextsOfAll c path ts
 end
 
 mutual
-  /-- The key texts of all descendants: `str(key)` under label-style parents, the summary name
-  (`key` or `[index]`) under summary-style parents. With `onlyShown` the summary-style keys of
-  children that get no summary are left out (finding F49). -/
-  def keyTextsOf (onlyShown : Bool) (c : Ctx) : Tree → List Str
+  /-- The key texts of all displayed descendants: `str(key)` for label-style keys, the summary name
+  (`key` or `[index]`) for summary-style keys. With `onlyShown` the summary-style keys of children
+  that get no summary are left out (finding F49). -/
+  def keyTextsOf (onlyShown : Bool) (c : Ctx) (path : List Key) : Tree → List Str
     | .leaf .. => []
-    | .node _ _ kind _ children =>
-      keyTextsOfAll onlyShown c (kind.isSeq || c.keyStyle == .label) children
-  def keyTextsOfAll (onlyShown : Bool) (c : Ctx) (label : Bool) : List Tree → List Str
+    | .node _ _ kind _ children => keyTextsOfAll onlyShown c kind.isSeq path children
+  def keyTextsOfAll (onlyShown : Bool) (c : Ctx) (seq : Bool) (path : List Key) : List Tree → List Str
     | [] => []
     | t :: ts =>
-      (if label then [t.key.text]
-       else if !onlyShown || needsSummary (childCtx c) true t then [t.key.summaryName] else [])
-      ++ keyTextsOf onlyShown (childCtx c) t ++ keyTextsOfAll onlyShown c label ts
+      (if childShown c (path ++ [t.key]) then
+         (if childLabel c seq (path ++ [t.key]) then [t.key.text]
+          else if !onlyShown || needsSummary (childCtx c) true t then [t.key.summaryName] else [])
+         ++ keyTextsOf onlyShown (childCtx c) (path ++ [t.key]) t
+       else [])
+      ++ keyTextsOfAll onlyShown c seq path ts
 end
 
 end Pg.C20
